@@ -41,6 +41,9 @@ def apply_op(m, trace, op, unique=False):
             return m.match(list(trace[:op[1]]), unique=unique, expand=True)
         if op[0] == "W":
             return m.increase_max_lattice_width(op[1], unique=unique)
+        if op[0] == "N":
+            # the same matcher object is reused for ANOTHER trace (the reversed one): a plain match() must start afresh
+            return m.match(list(trace[::-1]), unique=unique)
         if op[0] == "C":
             if op[1] is None:
                 return ("C", m.continue_with_distance())
